@@ -392,7 +392,7 @@ func c17Calls() []c17Call {
 		return []interface{}{specs, specsD}
 	})
 	// ---- reads: filters may be modified afterwards, everything handed back may be modified
-	add("Find + All into []bson.D and []bson.M", func() []interface{} { return []interface{}{bD("tags", bD("$in", bson.A{"y", "x"}))} }, func(w *world.World, a []interface{}) []interface{} {
+	add("Find + All into []bson.D and []bson.M (read only)", func() []interface{} { return []interface{}{bD("tags", bD("$in", bson.A{"y", "x"}))} }, func(w *world.World, a []interface{}) []interface{} {
 		cur, err := coll(w).Find(w.Ctx, a[0], options.Find().SetSort(bD("n", i(1))))
 		if err != nil {
 			panic(err)
@@ -406,7 +406,7 @@ func c17Calls() []c17Call {
 		_ = cur2.All(w.Ctx, &ms)
 		return []interface{}{ds, ms}
 	})
-	add("Find + Next/Decode into bson.D, struct and Current", func() []interface{} { return []interface{}{bD("_id", i(1))} }, func(w *world.World, a []interface{}) []interface{} {
+	add("Find + Next/Decode into bson.D, struct and Current (read only)", func() []interface{} { return []interface{}{bD("_id", i(1))} }, func(w *world.World, a []interface{}) []interface{} {
 		cur, err := coll(w).Find(w.Ctx, a[0])
 		if err != nil || !cur.Next(w.Ctx) {
 			panic(fmt.Sprint("find: ", err))
@@ -425,7 +425,7 @@ func c17Calls() []c17Call {
 		})
 		return []interface{}{&d, &p, again}
 	})
-	add("FindOne + Decode / DecodeBytes (projection)", func() []interface{} { return []interface{}{bD("_id", binID()), bD("a", i(1), "tags", i(1))} }, func(w *world.World, a []interface{}) []interface{} {
+	add("FindOne + Decode / DecodeBytes (projection) (read only)", func() []interface{} { return []interface{}{bD("_id", binID()), bD("a", i(1), "tags", i(1))} }, func(w *world.World, a []interface{}) []interface{} {
 		sr := coll(w).FindOne(w.Ctx, a[0], options.FindOne().SetProjection(a[1]))
 		var d bson.D
 		if err := sr.Decode(&d); err != nil {
@@ -440,7 +440,7 @@ func c17Calls() []c17Call {
 		})
 		return []interface{}{&d, []byte(raw), again}
 	})
-	add("Distinct(values of document-valued and array fields)", func() []interface{} { return []interface{}{bD("n", bD("$lte", i(3)))} }, func(w *world.World, a []interface{}) []interface{} {
+	add("Distinct(values of document-valued and array fields) (read only)", func() []interface{} { return []interface{}{bD("n", bD("$lte", i(3)))} }, func(w *world.World, a []interface{}) []interface{} {
 		var out []interface{}
 		for _, f := range []string{"_id", "a", "tags", "blob"} {
 			vals, err := coll(w).Distinct(w.Ctx, f, a[0])
@@ -482,6 +482,53 @@ func c17Calls() []c17Call {
 			return fmt.Sprintf("same stream event again: %s %v token %x", J(normEventD(ev2)), err, []byte(s.ResumeToken()))
 		})
 		return []interface{}{&ev, []byte(tok), again}
+	})
+	add("Find / FindOne with exclusions, $slice and $elemMatch below embedded documents (read only)", func() []interface{} {
+		return []interface{}{bD("n", bD("$gte", i(1))), bD("a.b", i(0), "tags", bD("$slice", i(1))), bD("a.b", bD("$slice", bson.A{i(1), i(1)})), bD("tags", bD("$elemMatch", bD("$eq", "y"))), bD("a.b", i(0), "blob", i(0))}
+	}, func(w *world.World, a []interface{}) []interface{} {
+		var out []interface{}
+		for _, proj := range a[1:] {
+			cur, err := coll(w).Find(w.Ctx, a[0], options.Find().SetProjection(proj).SetSort(bD("n", i(1))))
+			if err != nil {
+				panic(err)
+			}
+			var ds []bson.D
+			if err := cur.All(w.Ctx, &ds); err != nil {
+				panic(err)
+			}
+			var one bson.M
+			if err := coll(w).FindOne(w.Ctx, bD("_id", i(1)), options.FindOne().SetProjection(proj)).Decode(&one); err != nil {
+				panic(err)
+			}
+			out = append(out, ds, one)
+		}
+		return out
+	})
+	// ---- the engine-level API below the driver layer: listings are built for the caller
+	add("Transaction.ListIndexes / ListCollections / ListDatabases + Index.Config (read only)", func() []interface{} { return nil }, func(w *world.World, a []interface{}) []interface{} {
+		txn, err := w.Engine.Begin(w.Ctx, false)
+		if err != nil {
+			panic(err)
+		}
+		h := lungo.Handle{"d", "c"}
+		specs, err := txn.ListIndexes(h)
+		if err != nil {
+			panic(err)
+		}
+		colls, err := txn.ListCollections(h, &bson.D{})
+		if err != nil {
+			panic(err)
+		}
+		dbs, err := txn.ListDatabases(&bson.D{})
+		if err != nil {
+			panic(err)
+		}
+		var cfgs []interface{}
+		for _, name := range []string{"_id_", "tags_1", "blob_idx"} {
+			cfg := txn.Catalog().Namespaces[h].Indexes[name].Config()
+			cfgs = append(cfgs, &cfg)
+		}
+		return []interface{}{[]*bson.D(specs), []*bson.D(colls), []*bson.D(dbs), cfgs}
 	})
 	add("GridFS upload with metadata + file listing", func() []interface{} {
 		return []interface{}{bD("owner", bD("tags", bson.A{"m"})), []byte{1, 2, 3, 4, 5}}
@@ -533,13 +580,20 @@ func init() {
 		// pass 1: count slots per call
 		type counts struct{ args, results int }
 		cnt := make([]counts, len(calls))
-		var argPreserved int64
+		var argPreserved, readOnly int64
 		for ci, cl := range calls {
 			w := world.New()
 			c17Setup(w)
 			args := cl.args()
 			before := c17Render(args)
+			obs0 := c17Observe(w)
 			res := cl.do(w, args)
+			if strings.Contains(cl.name, "(read only)") {
+				readOnly++
+				if obs := c17Observe(w); obs != obs0 {
+					r.Violation("read-changes-database:"+strings.Fields(cl.name)[0], cl.name+": the database differs after a call that only reads:\n"+firstDiff(obs0, obs), map[string]interface{}{"call": cl.name})
+				}
+			}
 			if after := c17Render(args); after != before {
 				r.Violation("argument-modified:"+strings.Fields(cl.name)[0], cl.name+": the call modified its argument:\n  before "+short(before, 500)+"\n  after  "+short(after, 500), map[string]interface{}{"call": cl.name})
 			}
@@ -614,6 +668,7 @@ func init() {
 		r.Set("argument_slots_mutated", totalArgs)
 		r.Set("result_slots_mutated", totalRes)
 		r.Set("argument_preservation_checks", argPreserved)
+		r.Set("read_only_calls_checked", readOnly)
 		r.Set("distinct_nontrivial", int64(len(jobs)))
 		r.Set("grammar_sizes", map[string]interface{}{"calls": len(calls), "slots": len(jobs)})
 		r.Set("exhaustive", !r.TooMany())
